@@ -88,7 +88,7 @@ def lst(xs):
     return "[" + "; ".join(xs) + "]"
 
 
-def phases(tier, addrs):
+def phases(tier, addrs, nregs=1):
     z32, f32, a5 = 0, 0xFFFFFFFF, 0xA5A5A5A5
     idle = {"axi_awprot": lst([uv(3, 0)]), "axi_arprot": lst([uv(3, 0)])}
     wr_off = {"axi_awaddr": lst([uv(4, 0)]), "axi_awvalid": "[VL false]", "axi_wdata": lst([bv(32, 0)]),
@@ -96,7 +96,9 @@ def phases(tier, addrs):
     rd_off = {"axi_araddr": lst([uv(4, 0)]), "axi_arvalid": "[VL false]", "axi_rready": "[VL false]"}
     ph = {}
     datas = [f32] if tier == "quick" else [z32, f32, a5]
-    strbs = [5, 10] if tier == "quick" else [0, 1, 4, 12, 15]
+    # quick: two registers x two strobe patterns is a product of > 10^4 states; one pattern there (the one-register
+    # layout keeps both)
+    strbs = ([5, 10] if nregs == 1 else [5]) if tier == "quick" else [0, 1, 4, 12, 15]
     ph["write"] = dict(idle, **rd_off, axi_awaddr=lst([uv(4, a) for a in addrs]),
                        axi_wdata=lst([bv(32, d) for d in datas]), axi_wstrb=lst([bv(4, s) for s in strbs]))
     ph["read"] = dict(idle, **wr_off, axi_araddr=lst([uv(4, a) for a in addrs]))
@@ -130,12 +132,12 @@ def run(ck: common.Check, replay=None):
         addrs = (mapped[:1] if ck.tier == "quick" and len(mapped) > 1 else mapped) + unmapped[:1]
         if ck.tier == "quick" and len(mapped) > 1:
             addrs = mapped[:2] + unmapped[:1]
-        for phase, alpha in phases(ck.tier, addrs).items():
+        for phase, alpha in phases(ck.tier, addrs, len(mapped)).items():
             if phase == "readwrite" and ck.tier == "quick" and name != "one_memword":
                 continue
             cases.append(X.Case(f"axi_{name}_{phase}", r["vhdl"], step=f"axi_monitor 3%Z {offsets}", init=f"axi_m0 {defaults}",
                                 monitor=True, imports="From Cohdl Require Import Models.AxiSpec.",
-                                alphabet_overrides=alpha, fuel=600000,
+                                alphabet_overrides=alpha, fuel=600000 if ck.tier == "quick" else 6000000,
                                 meta={"layout": name, "phase": phase, "addresses": addrs, "source": dsg["source"]}))
             ck.hist("phases", phase)
     X.run_cases(ck, cases, "AXI4-Lite monitor flags on an input sequence (handshake, response count, strobed write or read data)",
